@@ -2,7 +2,7 @@
    function store of Model/HdrSpec.v; names are case-insensitive. *)
 From Coq Require Import List NArith Bool Lia.
 From Coq Require Import Strings.Byte.
-From Falco Require Import Base.Bytes Model.HdrField Model.Hdr Model.HdrSpec Proofs.HdrBytes.
+From Falco Require Import Base.Bytes Model.HdrField Model.HdrCookie Model.Hdr Model.HdrSpec Proofs.HdrBytes.
 Import ListNotations.
 
 (* ---- association lists ---- *)
@@ -83,9 +83,9 @@ Proof.
   - (* set *)
     unfold h_set. destruct (protected name); [split; [reflexivity|apply aeq_refl]|].
     destruct (cut_colon name) as [[n key] found]. destruct found; cbn [negb].
-    + destruct kd; [destruct (is_cookie n); [split; [reflexivity|apply aeq_refl]|]|];
-        (split; [reflexivity|]); unfold of_outcome, sstep; cbn [fst snd]; rewrite header_get_abs;
-        unfold assign, header_set; aeq_tac.
+    + destruct kd; [destruct (is_cookie n)|];
+        (split; [reflexivity|]); unfold of_outcome, sstep; cbn [fst snd]; rewrite ?header_get_abs;
+        unfold assign, header_set, header_set_lines; aeq_tac.
     + destruct v as [|s]; (split; [reflexivity|]); unfold of_outcome, sstep; cbn [fst snd];
         unfold assign, unassign, header_set, header_del; aeq_tac.
   - (* add *)
@@ -96,10 +96,18 @@ Proof.
     destruct (cut_star name) as [p|].
     + split; [reflexivity|]. unfold of_outcome, sstep. cbn [fst snd]. aeq_tac.
     + destruct (cut_colon name) as [[n key] found]. destruct found; cbn [negb].
-      * destruct kd; [destruct (is_cookie n); [split; [reflexivity|apply aeq_refl]|]|];
-          (split; [reflexivity|]); unfold of_outcome, sstep, unset_sub; cbn [fst snd];
-          rewrite header_get_abs; destruct (is_nil (unset_field (first_val (abs st) (canon n)) key));
-          unfold unassign, header_set, header_del; aeq_tac.
+      * assert (Hsub : forall st', st' = unset_sub st n key ->
+                  aeq (abs st') (fst (sstep (abs st) (SRemoveField (canon n) key)))).
+        { intros st' ->. unfold sstep, unset_sub. cbn [fst snd]. rewrite header_get_abs.
+          destruct (is_nil (unset_field (first_val (abs st) (canon n)) key));
+            unfold unassign, header_set, header_del; aeq_tac. }
+        assert (Hck : aeq (abs (cookie_unset_sub st n key)) (fst (sstep (abs st) (SCookieRemove (canon n) key)))).
+        { unfold sstep, cookie_unset_sub. cbn [fst snd].
+          change (header_lines st n) with (all_vals (abs st) (canon n)).
+          destruct (all_vals (abs st) (canon n)) as [|l0 ls]; [apply aeq_refl|].
+          destruct (remove_cookie (l0 :: ls) key); unfold header_del, header_set_lines; aeq_tac. }
+        destruct kd; [destruct (is_cookie n)|]; (split; [reflexivity|]); unfold of_outcome; cbn [fst snd];
+          first [exact Hck | exact (Hsub _ eq_refl)].
       * split; [reflexivity|]. unfold of_outcome, sstep. cbn [fst snd].
         unfold unassign, header_del. aeq_tac.
 Qed.
@@ -112,8 +120,9 @@ Lemma sstep_ext a b s : aeq a b ->
   snd (sstep a s) = snd (sstep b s) /\ aeq (fst (sstep a s)) (fst (sstep b s)).
 Proof.
   intros H. pose proof H as [Hv Ha].
-  destruct s as [cn key ck|cn v|cn key v|cn s|cn|cn key|p| |]; unfold sstep; cbn [fst snd].
-  - rewrite (first_val_ext a b cn H), Ha. split; [reflexivity|exact H].
+  assert (Hall : forall cn, all_vals a cn = all_vals b cn) by (intros cn; unfold all_vals; rewrite Hv; reflexivity).
+  destruct s as [cn key ck|cn v|cn key v|cn s|cn|cn key|p|cn key s|cn key| |]; unfold sstep; cbn [fst snd].
+  - rewrite (first_val_ext a b cn H), Ha, Hall. split; [reflexivity|exact H].
   - destruct v; cbn [fst snd]; (split; [reflexivity|]); split; intros n; simpl; unfold upd;
       destruct (beq cn n); auto.
   - rewrite (first_val_ext a b cn H). split; [reflexivity|]. split; intros n; simpl; unfold upd;
@@ -123,6 +132,9 @@ Proof.
   - rewrite (first_val_ext a b cn H). split; [reflexivity|]. split; intros n; simpl; unfold upd;
       destruct (beq cn n); auto.
   - split; [reflexivity|]. split; intros n; simpl; [destruct (is_prefix p n); auto | auto].
+  - rewrite Hall. split; [reflexivity|]. split; intros n; simpl; unfold upd; destruct (beq cn n); auto.
+  - rewrite Hall. split; [reflexivity|]. destruct (all_vals b cn) as [|l0 ls]; [exact H|].
+    destruct (remove_cookie (l0 :: ls) key); split; intros n; simpl; unfold upd; destruct (beq cn n); auto.
   - split; [reflexivity|exact H].
   - split; [reflexivity|exact H].
 Qed.
